@@ -268,6 +268,21 @@ def _error_code(call):
                                 if id(l) not in seen_bodies:
                                     seen_bodies.add(id(l))
                                     nxt.append((l["init"], lvl))
+                        # ... or bound by the pattern of a match arm: what is matched on made the value
+                        for m_ in hir.nodes(lb, "Match"):
+                            if any(any(bd["id"] == lid for bd in hir.pat_bindings(a_["pat"])) for a_ in m_["arms"]) and id(m_) not in seen_bodies:
+                                seen_bodies.add(id(m_))
+                                nxt.append((m_["scrut"], lvl))
+                if p["res"].get("k") == "Def" and p["res"].get("dk") in ("Fn", "AssocFn") and prog is not None:
+                    # a constructor named as a value (`.map_err(invalid_params)`)
+                    fp_ = p["res"].get("rp") or p["res"].get("p") or ""
+                    fb_ = prog.body(fp_) if fp_.startswith("lsp4spl::server") else None
+                    if fb_ is not None and fp_ not in seen_bodies:
+                        seen_bodies.add(fp_)
+                        for p2 in hir.nodes(fb_["body"], "Path"):
+                            co2 = p2["res"].get("ctor_of", "")
+                            if co2.startswith("lsp4spl::error::ErrorCode::"):
+                                found.add(last(co2))
             if prog is not None:
                 for cl in hir.nodes(r):
                     if cl.get("k") in ("Call", "MethodCall"):
@@ -289,6 +304,17 @@ def _error_code(call):
                                             if co.startswith("lsp4spl::error::ErrorCode::"):
                                                 found.add(last(co))
         roots = nxt
+    if not found and prog is not None and not _PROG.get("retry"):
+        # the call sits in a helper that is not being followed from a call site right now: resolve inside that helper
+        for hb_ in prog.lsp.bodies:
+            if hb_["p"].startswith("lsp4spl::server") and hb_ is not body and any(x_ is call for x_ in hir.nodes(hb_["body"])):
+                saved = (_PROG.get("body"), _PROG.get("inline"))
+                _PROG["body"], _PROG["inline"], _PROG["retry"] = hb_, [], True
+                try:
+                    return _error_code(call)
+                finally:
+                    _PROG["body"], _PROG["inline"] = saved
+                    _PROG["retry"] = False
     return "|".join(sorted(found)) if found else None
 
 
@@ -343,6 +369,7 @@ def _classify_factory(c, prog=None):
                 return ("panic", n)
         return None
     classify.inline_stack = inlining
+    classify.follow_closures = True
     _PROG["inline"] = inlining
     return classify
 
@@ -550,6 +577,14 @@ def rule_lifecycle(prog):
                 n_split, n_into, n_send = evs.count("split"), evs.count("into"), evs.count("send")
                 ok = n_split == 1 and n_into == 1 and n_send == 1 and \
                     evs.index("split") < evs.index("into") < evs.index("send")
+                if not ok and n_split == 0 and n_into == 0 and any(_handed_on(prog, rarm_) for rarm_ in arms["Request"]):
+                    # the request is handed to a handler that is chosen at run time (a table of function pointers, a trait object):
+                    # what that handler does with it is not followed from here
+                    ok = None
+                if not ok and "closure-skipped" in evs and n_into == 0:
+                    # the response is built inside a closure of a Result/Option combinator and this is the way on which the closure
+                    # does not run (the value is an Err that `?` propagates further on): not followed
+                    ok = None
                 locn = c.loc(p[-1][1]["sp"]) if p and isinstance(p[-1][1], dict) else c.loc(arms["Request"][0]["sp"])
                 out.add(item, "request path %s: exactly one response" % sig, ok, locn,
                         "events on this path: %s" % evs, ("one-response",))
@@ -561,8 +596,9 @@ def rule_lifecycle(prog):
                         codes.add(e[2])
             rloc = c.loc(arms["Request"][0]["sp"])
             if name == "initialization" and li == 0:
+                handed_ = not codes and any(_handed_on(prog, rarm_) for rarm_ in arms["Request"])
                 out.add(item, "requests before initialize are rejected with ServerNotInitialized",
-                        codes - {"InvalidParams"} == {"ServerNotInitialized"}, rloc, "codes used: %s" % sorted(map(str, codes)), ("codes",))
+                        None if handed_ else codes - {"InvalidParams"} == {"ServerNotInitialized"}, rloc, "codes used: %s" % sorted(map(str, codes)), ("codes",))
             elif name == "initialization":
                 # between the initialize request and the initialized notification: a second initialize is an InvalidRequest, every
                 # other request still finds the server not initialized
@@ -604,7 +640,8 @@ def rule_lifecycle(prog):
                         flat == {"InvalidRequest", "ServerNotInitialized"} and cond_ok, rloc,
                         "codes used: %s; InvalidRequest tied to method == initialize: %s" % (sorted(flat), cond_ok), ("codes",))
             elif name == "shutdown":
-                out.add(item, "requests after shutdown are rejected with InvalidRequest", codes == {"InvalidRequest"},
+                handed_ = not codes and any(_handed_on(prog, rarm_) for rarm_ in arms["Request"])
+                out.add(item, "requests after shutdown are rejected with InvalidRequest", None if handed_ else codes == {"InvalidRequest"},
                         rloc, "codes used: %s" % sorted(map(str, codes)), ("codes",))
                 results = [e for p in ps for e in p if e[0] == "into" and e[2] == "result"]
                 out.add(item, "no request is served after shutdown", not results, rloc, "", ("codes",))
@@ -617,22 +654,30 @@ def rule_lifecycle(prog):
                             inner = m
                             break
                 if inner is None:
-                    out.add(item, "dispatches on request.method", False, rloc, "", ("codes",))
+                    out.add(item, "dispatches on request.method", None if any(_handed_on(prog, rarm_) for rarm_ in arms["Request"]) else False,
+                            rloc, "", ("codes",))
                 else:
                     for a in inner["arms"]:
                         pc = _pat_const(a["pat"])
                         meth = method_of(c, pc) if pc else None
                         acodes = set()
                         results = 0
-                        for n in _server_deep(prog, c, a["body"]):
-                            if n.get("k") != "MethodCall":
-                                continue
-                            ev = classify(n)
-                            if ev and ev[0] == "into":
-                                if ev[2] == "result":
-                                    results += 1
-                                else:
-                                    acodes.add(ev[2])
+                        try:
+                            # over the paths through the arm (helpers followed from their call sites, so that an error handed to a
+                            # helper as an argument is seen)
+                            for p_ in flow.paths(a["body"], classify):
+                                results = max(results, len([e_ for e_ in p_ if e_[0] == "into" and e_[2] == "result"]))
+                                acodes |= {e_[2] for e_ in p_ if e_[0] == "into" and e_[2] != "result"}
+                        except OverflowError:
+                            for n in _server_deep(prog, c, a["body"]):
+                                if n.get("k") != "MethodCall":
+                                    continue
+                                ev = classify(n)
+                                if ev and ev[0] == "into":
+                                    if ev[2] == "result":
+                                        results += 1
+                                    else:
+                                        acodes.add(ev[2])
                         if meth == "Initialize":
                             out.add(item, "second initialize is rejected with InvalidRequest",
                                     acodes == {"InvalidRequest"} and results == 0, c.loc(a["sp"]), "codes %s" % sorted(map(str, acodes)), ("codes",))
@@ -652,7 +697,9 @@ def rule_lifecycle(prog):
             nloc = c.loc(arms["Notification"][0]["sp"])
             if name == "shutdown":
                 ok = not exits and exit_guarded and all(kind in ("break", "return-ok") for kind in exit_guarded)
-                out.add(item, "`exit` after shutdown leaves the loop (process ends with status 0 after flushing)", bool(ok),
+                if not ok and not exits and not exit_guarded and any(_handed_on(prog, narm_) for narm_ in arms["Notification"]):
+                    ok = None      # the notification is handed to a handler chosen at run time
+                out.add(item, "`exit` after shutdown leaves the loop (process ends with status 0 after flushing)", None if ok is None else bool(ok),
                         nloc, "exit branches: %s, process::exit calls: %d" % (exit_guarded, len(exits)), ("exit",))
             else:
                 # `exit` without shutdown: the phase is left at once and tells its caller so (a value that no other way out of the
@@ -720,6 +767,11 @@ def rule_lifecycle(prog):
                             sc_ = hir.strip(mm_["scrut"]) if mm_ and mm_.get("k") == "Match" else {}
                             if sc_.get("k") in ("Call", "MethodCall") and (hir.callee(sc_) or "").endswith("serde_json::value::from_value"):
                                 in_err = True
+                            elif sc_.get("k") == "MethodCall" and sc_["m"] in ("map", "map_err", "and_then") and any(
+                                    x_.get("k") in ("Call", "MethodCall") and (hir.callee(x_) or "").endswith("serde_json::value::from_value")
+                                    for x_ in hir.nodes(sc_["recv"])):
+                                # `match from_value(params).map(|p| ..) { .., Err(err) => .. }`: still the deserialisation's error
+                                in_err = True
                     out.add(item, "InvalidParams answers params that do not deserialize, nothing else", in_err, c.loc(mc_["sp"]),
                             "an InvalidParams error is produced outside the Err arm of the params' deserialization", ("codes", "params"))
             # Response arm: error
@@ -767,9 +819,16 @@ def rule_lifecycle(prog):
                 "no exit under a test of Initialized::METHOD found", ("shape", "order"))
     else:
         loop_of = {}
+        eof_breaks = set()
         for lp in iloops:
+            # (`let Some(frame) = reader.next().await else { break }`: leaving there is the end of the input, not a message)
+            for st_ in hir.nodes(lp["body"], "Let"):
+                if st_.get("els") is not None and st_.get("init") is not None and any(
+                        m_.get("k") == "MethodCall" and m_["m"] == "next" for m_ in _server_deep(prog, c, st_["init"], 1)):
+                    for x_ in hir.nodes(st_["els"], "Break"):
+                        eof_breaks.add(id(x_))
             for x_ in hir.nodes(lp["body"]):
-                if x_.get("k") == "Break":
+                if x_.get("k") == "Break" and id(x_) not in eof_breaks:
                     loop_of.setdefault(id(x_), lp)      # (innermost wins below: nested loops overwrite)
         for lp in iloops:
             for inner_lp in hir.nodes(lp["body"]):
@@ -849,6 +908,9 @@ def rule_lifecycle(prog):
             join_i = i
         elif _joins_tasks(prog, c, s):
             join_i = i
+        elif any(aw.get("k") == "Await" and "JoinHandle" in c.tstr(hir.strip(aw["e"])["t"]) for aw in hir.nodes(s)):
+            # the handles are awaited one by one (`responder.await..; if let Some(broker) = broker { broker.await.. }`): the last one counts
+            join_i = i
     out.add("server::LanguageServer::run", "awaits the spawned tasks before returning", join_i is not None, c.loc(run["sp"]),
             "responder and broker must be joined so that queued responses are written", ("join",))
     # (d2) flag: what initialization / main report about an `exit` without shutdown decides (i) whether the following phases
@@ -871,6 +933,19 @@ def rule_lifecycle(prog):
                 tgt = place(pr_["l"])
         if tgt:
             flags.add(tgt)
+
+    # a value computed from what a phase returned is that report too (`let flag = match result { Ok(flag) => flag, Err(e) => return Err(e) }`)
+    for _ in range(3):
+        for s_ in seq:
+            for n_ in hir.nodes(s_):
+                tgt_, src_ = None, None
+                if n_.get("k") == "Let" and n_["pat"].get("k") == "Binding" and n_.get("init") is not None:
+                    tgt_, src_ = "%s#%s" % (n_["pat"]["name"], n_["pat"]["id"]), n_["init"]
+                elif n_.get("k") == "Assign":
+                    tgt_, src_ = place(n_["l"]), n_["r"]
+                if tgt_ and tgt_ not in flags and src_ is not None and any(place(x) in flags for x in hir.nodes(src_, "Path")) and not any(
+                        x.get("k") in ("Call", "MethodCall") and hir.local_callee_body(prog, x) is not None for x in hir.nodes(src_)):
+                    flags.add(tgt_)
 
     def mentions_flag(e):
         return any(place(x) in flags for x in hir.nodes(e, "Path"))
@@ -1170,6 +1245,34 @@ def _exit_values(c, narms):
     return res
 
 
+def _has_column_free_way(cond, reads_col):
+    """can `cond` hold without any of the comparisons that read the column holding?  (conjunction: every conjunct must allow it;
+    disjunction: one disjunct is enough)"""
+    e = hir.strip(cond)
+    if e.get("k") == "Binary" and e["op"] == "&&":
+        return _has_column_free_way(e["l"], reads_col) and _has_column_free_way(e["r"], reads_col)
+    if e.get("k") == "Binary" and e["op"] == "||":
+        return _has_column_free_way(e["l"], reads_col) or _has_column_free_way(e["r"], reads_col)
+    return not reads_col(e)
+
+
+def _handed_on(prog, arm):
+    """is the message bound by the arm's pattern passed to a call whose callee is a value (function pointer, closure variable, trait
+    object method) - i.e. to code that cannot be named from here?"""
+    ids = {bd["id"] for bd in hir.pat_bindings(arm["pat"])}
+    for call in hir.nodes(arm["body"]):
+        if call.get("k") not in ("Call", "MethodCall"):
+            continue
+        args_ = list(call.get("args") or [])
+        if not any((hir.path_local(hir.strip_ref(hir.strip(a_))) or {}).get("id") in ids for a_ in args_):
+            continue
+        if call.get("k") == "Call" and hir.path_local(hir.strip(call["f"])):
+            return True       # `handler(request, ..)` with `handler` a local value
+        if hir.local_callee_body(prog, call) is None and not (hir.callee(call) or "").startswith(("core::", "std::", "alloc::", "tokio::", "serde")):
+            return True
+    return False
+
+
 def _joins_tasks(prog, c, stmt):
     """does the statement await the spawned tasks through a local helper (`workers.join().await`: a loop over JoinHandles inside)"""
     for call in hir.nodes(stmt):
@@ -1337,6 +1440,13 @@ def rule_codec(prog):
     ok = (ce.get("k") == "Binary" and ce["op"] == "+") if ce is not None else None
     out.add("LSCodec::decode", "content_end = content_start + content_length", ok, c.loc(dec["sp"]), "")
     lits = [n["lit"].get("v") for n in hir.nodes_deep(prog, dec["body"]) if n.get("k") == "Lit" and n["lit"]["k"] == "str"]
+    # (a header name kept in a constant counts as written where the constant is used)
+    for n in hir.nodes_deep(prog, dec["body"], 3, crate=c):
+        if n.get("k") == "Path" and n["res"].get("k") == "Def" and str(n["res"].get("dk", "")).startswith(("Const", "AssocConst")):
+            cb_ = prog.body(n["res"].get("p") or "")
+            v_ = hir.lit_value(cb_["body"]) if cb_ is not None else None
+            if isinstance(v_, str):
+                lits.append(v_)
     out.add("LSCodec::decode", "length is read from the `Content-Length` header", "Content-Length" in lits, c.loc(dec["sp"]), "string literals: %s" % lits)
     # header field names are case-insensitive (the base protocol's header part follows HTTP semantics)
     exact = None
@@ -1597,6 +1707,19 @@ def rule_broker(prog):
         for p in parents:
             if p.get("k") == "If" and _contains(p["then"], n) and (is_flag(p["cond"]) or any(is_flag(y) for y in hir.nodes(p["cond"]))):
                 return True
+        # early-return form: `if !flag { return; }` in front of the call
+        chain_ = list(parents) + [n]
+        for i_, p in enumerate(chain_[:-1]):
+            if p.get("k") != "Block":
+                continue
+            for st_ in p["stmts"]:
+                if st_ is chain_[i_ + 1] or _contains(st_, n):
+                    break
+                in_ = hir.stmt_inner(st_) or {}
+                cnd_ = hir.strip(in_.get("cond") or {}) if in_.get("k") == "If" else {}
+                if cnd_.get("k") == "Unary" and cnd_.get("op") in ("!", "Not") and is_flag(cnd_["e"]) and \
+                        any(x_.get("k") == "Ret" for x_ in hir.nodes(in_["then"])) and in_.get("else") is None:
+                    return True
         opaque = False
         for p in parents:
             if p.get("k") == "Match" and not _contains(p["scrut"], n) and local_enum(hir.strip_ref(hir.strip(p["scrut"]))):
@@ -1991,6 +2114,10 @@ def rule_text_sync(prog):
                     for pr in parents:
                         if pr.get("k") == "If" and reads(pr["cond"], "line") and not reads(pr["cond"], "character"):
                             ok = True
+                        # one combined exit `on the line && (column reached || at a line break)`: some way through the condition
+                        # does not ask for the column
+                        if pr.get("k") == "If" and reads(pr["cond"], "line") and _has_column_free_way(pr["cond"], lambda x_: reads(x_, "character")):
+                            ok = True
                         if pr.get("k") == "Arm" and pr.get("guard") is not None and reads(pr["guard"], "line") and not reads(pr["guard"], "character"):
                             ok = True
             # the column counter advances by len_utf16() (1 or 2): a requested column in the middle of a surrogate pair is jumped over
@@ -2072,6 +2199,20 @@ def rule_text_sync(prog):
                 ordered = True
             if en.get("k") == "Call" and last(hir.callee(en) or "") == "max" and sp_ in [place(hir.strip_ref(a_)) for a_ in en["args"]]:
                 ordered = True
+        if ordered is False:
+            # or the two bounds are compared with each other before a range is chosen (`if last < first { first..first } else { first..last }`)
+            bounds = set()
+            for st in hir.nodes(air["body"], "Struct"):
+                if (st.get("adt") or "").startswith("core::ops::range::Range"):
+                    for x_ in st["fields"]:
+                        pl_ = place(hir.strip_ref(hir.strip(x_["e"])))
+                        if pl_:
+                            bounds.add(pl_)
+            for bn in hir.nodes(air["body"], "Binary"):
+                if bn["op"] in ("<", "<=", ">", ">="):
+                    l_, r_ = place(hir.strip_ref(hir.strip(bn["l"]))), place(hir.strip_ref(hir.strip(bn["r"])))
+                    if l_ and r_ and l_ != r_ and {l_, r_} <= bounds:
+                        ordered = True
         if ordered is False:
             # or an explicit guard comparing the two bounds somewhere in the function
             for bn in hir.nodes(air["body"], "Binary"):
